@@ -431,9 +431,8 @@ def grid(prog, rep):
     # default limits
     okl = False
     why = "no default limits found"
-    for st in cfg.all_stmts():
-        if isinstance(st, ast.Assign) and isinstance(st.value, ast.ListComp) and ("isnone", lim_attr) in pcs.of(st):
-            t = b.term(st.value, st)
+    for st, _nm, t in b.list_values():
+        if t[0] == "comp" and ("isnone", lim_attr) in pcs.of(st):
             d = ("idx", t[3], "range", (nd,))
             why = f"default limits must be (lower, model.marginal_icdf(p, dim)) for dim in range(n_dim) with the comprehension's own dim; found {show(t)[:200]}"
             if t[4] == ("call", G("range"), (nd,), ()) and t[2][0] == "tuple" and len(t[2][1]) == 2:
